@@ -23,6 +23,30 @@ def known_sig(t, l, clause):
             if wr['kind'] == 'tk' and wr['to'] == 'WAITING' and wr['frm'] in ('RUNNING', 'SUCCESS', 'ERROR', 'DELAYED'):
                 rearmed = True
     out['join_rearmed'] = rearmed
+    ev = t['steps'][l - 1]['ev']
+    if clause in ('NoHang', 'NoWaitingAtRest'):
+        # KF_ResumeJoinNoRefresh: a join still WAITING at rest whose row was created by a resume step
+        first = {}
+        for k, s in enumerate(t['steps'][:l]):
+            for x in s['obs']['tk']:
+                first.setdefault(x['sid'], s['ev']['what'])
+        waiting = [x for x in t['steps'][l - 1]['obs']['tk'] if x['state'] == 'WAITING' and x['isJoin']]
+        out['waiting_join_created_by_resume'] = any(first.get(x['sid']) == 'resume' for x in waiting)
+    if clause == 'WithinLimit':
+        o = t['steps'][l - 1]['obs']
+        over = []
+        for x in o['tk']:
+            conc = t['prog']['tasks'][x['name']]['conc']
+            if conc > 0:
+                live = sum(1 for a in o['ax'] if a['task'] == x['sid'] and a['state'] in ('RUNNING', 'IDLE', 'PAUSED', 'DELAYED', 'WAITING'))
+                live += sum(1 for w in o['wf'] if w['parent'] == x['sid'] and w['state'] in ('RUNNING', 'IDLE', 'PAUSED'))
+                if live > conc:
+                    over.append(x)
+        out['over_limit_tasks_all_joins'] = bool(over) and all(x['isJoin'] for x in over)
+    if clause == 'StopAck' and l >= 2:
+        prev = {w['sid']: w['state'] for w in t['steps'][l - 2]['obs']['wf']}
+        out['stop_state'] = ev.get('arg', '')
+        out['prev_state'] = prev.get(ev.get('target', ''), '')
     return out
 
 
@@ -36,7 +60,7 @@ def random_jobs(rnd, n, schedulers=('default', 'legacy'), gen_kw=None, label='ra
     return jobs
 
 
-def catalogue_jobs(schedulers=('default', 'legacy'), policies=('random', 'starve_jobs', 'results_first'), seeds=(1,), **job_kw):
+def catalogue_jobs(schedulers=('default', 'legacy'), policies=tuple(engrun.POLICIES[1:]), seeds=(1, 2), **job_kw):
     jobs = []
     for nm, P in gen.catalogue():
         for s in schedulers:
@@ -69,6 +93,15 @@ def run_property(pid, tier, jobs, nontrivial_rule, nontrivial_fn, model_runs=Non
         if not r.finished or not r.ok:
             raise common.MachineryError('model %s violates a property of the specification itself (spec defect or unmodelled defect):\n%s'
                                         % (name, r.out[-3500:]))
+    if pid == 'C06':
+        from harness.checks import c06_executor
+        er = c06_executor.EXECUTOR_RESULT
+        for nm, x in er.get('violations', []):
+            verdict.violation({'clause': 'Executor.' + nm, 'redelivered': x['redelivered'], 'safe': x['safe'], 'outcome': x['outcome']},
+                              'executor request %s: %s false' % (json.dumps(x), nm), x)
+        for x in er.get('divergent', [])[:5]:
+            verdict.divergence('executor request not a behaviour of Executor.tla: %s' % json.dumps(x))
+        extra = dict(extra or {}, executor_requests=er.get('requests', 0), executor_requests_accepted=er.get('accepted', 0))
     traces = engcheck.run_jobs(jobs)
     errs = [t for t in traces if 'error' in t]
     if errs:
@@ -90,8 +123,10 @@ def run_property(pid, tier, jobs, nontrivial_rule, nontrivial_fn, model_runs=Non
                                                                     for s in t['steps']],
                             'final': {'wf': [(w['sid'], w['state']) for w in t['steps'][-1]['obs']['wf']],
                                       'tk': [(x['sid'], x['state']) for x in t['steps'][-1]['obs']['tk']]}})
-    for nline in verdict.notes[:5]:
+    for nline in verdict.notes[:3]:
         print('NOTE ' + nline)
+    if verdict.other_clauses:
+        print('NOTE clauses of other properties false in these runs: %s' % verdict.other_clauses)
     rc = verdict.finish()
     cov = {
         'states': max(1, states), 'transitions': max(1, trans),
